@@ -45,17 +45,21 @@ func NewQueue[T any](opts ...options.Option[Queue[T]]) (queue *Queue[T]) {
 
 // Add inserts a new element into the queue that can be retrieved via Poll() at the specified time.
 func (t *Queue[T]) Add(value T, scheduledTime time.Time) (addedElement *QueueElement[T]) {
-	// prevent modifications of a shutdown queue
+	// acquire locks
+	t.heapMutex.Lock()
+
+	// prevent modifications of a shutdown queue (checked while holding the heap lock: a concurrent Shutdown inspects the
+	// heap under the same lock after it has marked the queue as shutdown, so it either sees the new element or the
+	// element is rejected here - it can no longer be added to a queue that nobody polls anymore)
 	if t.IsShutdown() {
+		t.heapMutex.Unlock()
+
 		if t.shutdownFlags.HasBits(PanicOnModificationsAfterShutdown) {
 			panic("tried to modify a shutdown TimedQueue")
 		}
 
 		return nil
 	}
-
-	// acquire locks
-	t.heapMutex.Lock()
 
 	// add new element
 
